@@ -163,7 +163,8 @@ var operators = []map[string]tokType{
 
 func (sys System) typeOf(r rune) uint8 {
 	// Special cases.
-	if r == '_' && sys == Maven {
+	if r == '_' && (sys == Maven || sys == PyPI) {
+		// (PEP 440 accepts _ as a separator inside a version: 1.0_rc_2.)
 		return tVS
 		// TODO: is + also tVS in Maven?
 	}
